@@ -232,7 +232,7 @@ func checkSubsample(c subCase) ev.Outcome {
 		}
 	}
 	o.NonTrivial = len(res) < n
-	o.Ratios = map[string]float64{"dropped_vertex_dist/tol": worst / c.Tol, "kept_fraction": float64(len(res)) / float64(n)}
+	o.Ratios = map[string]float64{"dropped_vertex_dist/tol": math.Max(0, worst-absSlack) / c.Tol, "kept_fraction": float64(len(res)) / float64(n)}
 	o.Counts = map[string]int{"vertices_in": n, "vertices_dropped": n - len(res)}
 	return o
 }
